@@ -23,7 +23,7 @@ CLAIMED = {
          "Generated-input search over histories of create / update (base direct, base compressed, created, repeated) / promise / fulfil / read / save / failing save then repair / copy of a file-backed stream, on corpus bases (classic, xref-stream with object streams, junk before the header) and generated bases, cached and uncached. After each write reads through the open document must show it; after each save the old revision must be a byte prefix, and a fresh load must resolve every written reference to its last value and every untouched object to its old value.",
          "objects that loading itself reads are not overwritten (that would invalidate the file); saved bytes come from File::save_to",
          "DESIGN.md §4 C09"),
- "C01": ("seeded structure-aware mutation fuzzing of corpus and generated documents in isolated worker processes, driven by proptest (shrinkable mutation lists); oracle = every call of the deep walk returns, no panic/abort, bounded allocation",
+ "C01": ("seeded structure-aware mutation fuzzing of corpus and generated documents in isolated worker processes, driven by proptest (shrinkable mutation lists); oracle = every call of the deep walk returns, no panic/abort, bounded allocation; thorough tier ends with a coverage-guided libFuzzer campaign (target open_walk)",
          "Generated-input search: each input (corpus file, corpus mutant with 1-8 stacked token- and byte-level mutations, generated typed document with damage inside object bodies applied before layout so the file still loads, raw bytes) is walked deeply (pages, resources, fonts, images, forms, content, trees, outlines, fields, every object number, recovery scan) in strict/tolerant x cached/uncached, each walk in a worker process with a counting allocator; panics are collected per call, a dead worker or a confirmed time-out pins the input, allocation is checked against T <= 256MiB + 4000(n+d), P <= 128MiB + 400(n+d). About half of the inputs reach typed loading (see evidence labels).",
          "absence of hangs is judged by a 40 s budget confirmed at 160 s; the walk is what engine/walker.rs reads; a search cannot cover all byte strings",
          "DESIGN.md §4 C01"),
@@ -47,7 +47,7 @@ CLAIMED = {
          "Generated-input search over (variant R2-R6, key length, user/owner password, P, ID, EncryptMetadata, object/generation numbers, string/stream lengths incl. empty and block-aligned, xref kind, encrypted object streams): with either password every string and stream must equal the plaintext the harness encrypted, wrong passwords must give InvalidPassword, the encryption dictionary's own strings and an unencrypted metadata stream must come back as written.",
          "MD5, SHA-2 and AES block primitives are trusted; key schedules, RC4 and Algorithm 2.B are implemented independently in harness/src/engine/crypt.rs and anchored on the corpus's password-protected files",
          "DESIGN.md §4 C06"),
- "C08": ("proptest-generated operation sequences (round-trip oracle under an independent structural description) and the 73-operator table with generated operands spelled by the randomised printer (oracle = my table of expansions)",
+ "C08": ("proptest-generated operation sequences (round-trip oracle under an independent structural description) and the 73-operator table with generated operands spelled by the randomised printer (oracle = my table of expansions); thorough tier ends with a coverage-guided libFuzzer campaign (target content_roundtrip)",
          "Generated-input search: (a) sequences over all Op variants biased towards the shorthand-triggering adjacencies, serialised and parsed back; (b) every operator of Table A.1 alone and in sequences of up to 6 with well-formed operands and random conformant spelling, compared with the specification's expansion, including the tracked current point for v and absence of operand leaks.",
          "the expansion table is my reading of ISO 32000-1 Table A.1; Integer and Real operands of equal value are identified",
          "DESIGN.md §4 C08, Appendix B"),
@@ -75,7 +75,7 @@ CLAIMED = {
          "Generated-input search over (value tree, spelling) pairs: ~35 optional syntax constructs (white-space set, comments with each EOL, signs, leading zeros, fraction-only reals, octal/named/ignored escapes, line continuations, balanced parentheses, hex strings with white-space/odd digits, #xx names and keys, separator elision, stream EOLs) in four parse entry points. The evidence lists per-construct counts. Exploration: constructs are sampled in combination, not enumerated.",
          "the printer is my reading of ISO 32000-1 7.2-7.3; reals denote std's correctly-rounded f32 of their decimal text",
          "DESIGN.md §4 C03"),
- "C04": ("proptest-generated Primitive trees + exhaustive 1/2-byte strings and all Unicode scalars as names/keys; round-trip oracle serialize->parse in each placement the writer uses",
+ "C04": ("proptest-generated Primitive trees + exhaustive 1/2-byte strings and all Unicode scalars as names/keys; round-trip oracle serialize->parse in each placement the writer uses; thorough tier ends with a coverage-guided libFuzzer campaign (target parse_roundtrip: parse -> serialise -> parse)",
          "Generated-input search over Primitive trees placed as indirect body (as save writes it), dictionary value, array element, SCN and BDC/DP operands; every 1- and 2-byte string and every Unicode scalar (as name and as key) exhaustively. Round-trip equality up to Integer/Real identification and no panic in serialize.",
          "placement strings mirror Storage::save and serialize_ops; canonical comparison identifies Integer n with Real n.0",
          "DESIGN.md §4 C04"),
@@ -83,7 +83,7 @@ CLAIMED = {
          "Generated-input search: every model's full instance is edited entry by entry (dropped, int<->real, scalar<->one-element array, direct<->indirect, model-specific alternatives), given unknown entries and (streams) one of ten filter chains; the instance is parsed from a generated file, read as the model, written through the file's updater, read and written again; the two written forms must be equal with references followed, and catch-all models must keep every input entry. Single edits are enumerated completely, combinations are sampled (60k quick, 3M thorough).",
          "the model table (harness/src/engine/schema.rs) is hand-written from the #[pdf(..)] attributes; values whose writer is unimplemented!()/Err are outside the property and counted as rejected",
          "DESIGN.md §4 C15"),
- "C16": ("exhaustive enumeration of short inputs + proptest-generated data; round-trip and differential oracle against an independent reference decoder",
+ "C16": ("exhaustive enumeration of short inputs + proptest-generated data; round-trip and differential oracle against an independent reference decoder; thorough tier ends with a coverage-guided libFuzzer campaign (target filters: decoders on arbitrary data, encoders inverted)",
          "Generated-input search: every byte string up to length 2 (quick) / 3 (thorough), single-value runs to 70000 bytes and structured random data to 64 KiB, for all four encodable filters; each must round-trip through the library decoder and be decoded to the same bytes by an independent decoder. Exploration, not proof: strings longer than 3 bytes are sampled.",
          "trusts harness/src/engine/filters.rs reference decoders (LZW cross-checked against weezl) and flate2's zlib",
          "DESIGN.md §4 C16"),
